@@ -21,13 +21,15 @@ RULE = ("TLC enumerates every canonical training multiset of the TreeGrow scope 
         "terminal trees is replayed through the real code; seeded random fits: 2..150 rows, 1..6 features "
         "(small-integer, pairwise-distinct, continuous, dyadic, constant/binary mixtures), 2..5 classes with "
         "arbitrary labels / dyadic targets, 3 criteria, max_depth None|1..8, min_samples_leaf 1..5, "
-        "min_samples_split 0..8, each fitted twice and (half of them) on features*2^j. A fit is non-trivial "
+        "min_samples_split 0..8, through DenseMatrix<f64> (65%), DenseMatrix<f32>, ndarray (column- and row-major) and nalgebra, "
+        "each fitted twice and (half of them) on features*2^j, j in -200..200. A fit is non-trivial "
         "when the tree has >= 3 internal nodes, or two rows share a feature value but not the label/target, "
         "or a leaf that could still be split by some threshold was kept by a depth / leaf-size / split-size "
         "limit; distinct = distinct (parameters, X, y)")
 
 MUST_HIT = ("TreeFit", "Cls", "Reg", "DepthLimited", "LeafLimit", "OptReg", "CompleteReg", "SideCond", "OptGini",
-            "OptEntropy", "OptError", "CompleteCls", "Reproduce", "Refit", "Scaled", "ArgSort", "Replayed")
+            "OptEntropy", "OptError", "CompleteCls", "Reproduce", "Refit", "Scaled", "ScaledFar", "ArgSort", "Replayed",
+            "Adjacent", "F32", "NdarrayF", "NdarrayC", "Nalgebra")
 
 
 def leaf_rows(e):
@@ -88,10 +90,13 @@ def key_of(e, clause):
         return "%s tree: split threshold equals the upper of two neighbouring doubles" % e["kind"]
     if e["ev"] == "ArgSort":
         return "argsort n=%d: %s" % (len(e["v"]), clause)
-    if e["ev"] in ("Refit", "Scaled"):
-        return "%s shift=%s: %s" % (e["ev"], e.get("shift"), clause)
-    return "%s/%s %s (%s features, max_depth %s, min_samples_leaf %s, min_samples_split %s)" % (
-        e["kind"], e["crit"], clause, e.get("family"), "none" if e["maxDepth"] == 0 else "set",
+    if e["ev"] == "Refit" or (e["ev"] == "Scaled" and clause == "ScaleInvariant"):
+        far = abs(e.get("shift") or 0) >= 50
+        return "%s %s(%s, %s): %s" % (e["ev"], "by 2^+-50 or more " if far else "", e.get("backend"), e.get("family"), clause)
+    return "%s/%s %s (%s features%s%s, max_depth %s, min_samples_leaf %s, min_samples_split %s)" % (
+        e["kind"], e["crit"], clause, e.get("family"),
+        "" if e.get("backend", "dense") == "dense" else " via " + e["backend"],
+        " scaled by 2^%d" % e["shift"] if e.get("shift") else "", "none" if e["maxDepth"] == 0 else "set",
         "1" if e["msl"] == 1 else ">1", "<=1" if e["mss"] <= 1 else ">1")
 
 
@@ -119,7 +124,7 @@ def validate(ctx, path, events, must_hit):
             by_run[e["run"]] = e
     for (l, run, ev, clause) in bads:
         e = events[l - 1]
-        if ev in ("Refit", "Scaled"):
+        if ev == "Refit" or (ev == "Scaled" and clause in ("ScaleInvariant",)):
             f = by_run.get(run)
             ctx.report(key_of(e, clause), "%s fails: refit of run %s differs (kind=%s)" % (clause, run, f and f["kind"]),
                        [x for x in (f, e) if x])
@@ -207,7 +212,9 @@ def run(ctx):
             "entropy optimality at nodes of more than 10 rows (no logarithm in TLA+; the integer identity overflows)",
             "regression optimality at nodes of more than 64 rows or with a target spread too large for 32-bit D^2 "
             "(distinct gains there may differ by less than double rounding error)",
-            "f32 trees; thresholds are only required to induce an optimal partition, not to be midpoints",
+            "f32 trees: regression optimality not decided, gini optimality only at nodes of <= 12 rows; "
+            "thresholds are only required to induce an optimal partition, not to be midpoints",
+            "rescaling beyond 2^+-200 (f64) / 2^+-60 (f32), i.e. near under-/overflow of the element type",
         ],
     }
     ctx.assumptions = [
